@@ -1,6 +1,6 @@
 (* Dispatch entries (name -> sx wrapper) for Misc/Determ.v (property C13). *)
 From Coq Require Import String.
-From BFG Require Import Base.Chars Base.Sx Make.MakeWrite Misc.Determ.
+From BFG Require Import Base.Chars Base.Sx Make.MakeWrite Misc.Determ Misc.SortDeterm.
 Local Open Scope N_scope.
 
 Definition us_of (x : sx) : char -> bool := fun c => mem_char c (un_str x).
@@ -27,6 +27,7 @@ Definition sx_res (r : res str) : sx :=
   match r with Ok x => L [A 0; sx_str x] | ErrValue => L [A 1] | Outside => L [A 2] end.
 
 Definition table : list (string * (sx -> sx)) := [
+  ("determ.split_texts", fun a => sx_list sx_str (split_texts (un_bool (nth_sx 0 a)) (un_strs (nth_sx 1 a))));
   ("determ.uniques", fun a => sx_list sx_str (uniques (un_strs (nth_sx 0 a))));
   ("determ.explicit_of", fun a => sx_list sx_str (explicit_of (un_strs (nth_sx 0 a))));
   ("determ.dict_of", fun a => sx_list sx_kv (dict_of (map un_kv (un_list (nth_sx 0 a)))));
